@@ -13,6 +13,10 @@ class Cat(State):
         return 0
 
 
+class SubCat(Cat):
+    """records of this SUBCLASS are folded by a merge function that answers with an instance of the base class"""
+
+
 class Last(State):
     v: int
 
@@ -47,6 +51,7 @@ def _boom(lhs, rhs):
 
 MERGE = {
     "Cat": (Cat, lambda x: Cat(items=(x,)), lambda a, b: Cat(items=(*a.items, *b.items))),
+    "CatSub": (SubCat, lambda x: SubCat(items=(x,)), lambda a, b: Cat(items=(*a.items, *b.items))),
     "Last": (Last, lambda x: Last(v=x), None),
     "Sum": (Sum, lambda x: Sum(v=x), lambda a, b: Sum(v=a.v + b.v)),
     "Boom": (Boom, lambda x: Boom(v=x), _boom),
@@ -57,7 +62,7 @@ MERGE = {
 def val_of(m, inst):
     if inst is None:
         return ()
-    return tuple(inst.items) if m == "Cat" else (inst.v,)
+    return tuple(inst.items) if m in ("Cat", "CatSub") else (inst.v,)
 
 
 def view_merge(cur, rec):
@@ -108,7 +113,7 @@ class MetricsDriver:
     def _snapshot(self, m):
         own = {k: val_of(k, m.read(MERGE[k][0])) for k in self.mtypes}
         merged = {type(x).__name__: x for x in m.metrics(merge=view_merge)}
-        view = {k: val_of(k, merged.get(k)) for k in self.mtypes}
+        view = {k: val_of(k, merged.get(k)) if k != "CatSub" else () for k in self.mtypes}
         return own, view
 
     def _cb(self, sid, is_async):
